@@ -67,7 +67,9 @@ def _case(draw, tier):
             "contents": [draw(gen.contents(max_small=32)), draw(gen.contents(max_small=32, big=False))],
             "order": draw(st.sampled_from([[0, 1], [1, 0]])),
             # one case in six: the surviving pid is also the path of an existing regular file
-            "filepid": draw(st.integers(0, 5)) == 0}
+            "filepid": draw(st.integers(0, 5)) == 0,
+            # one case in five: the store path is RELATIVE to the current directory (and has a blank in it)
+            "relative_root": draw(st.integers(0, 4)) == 0}
 
 
 def strategy(tier):
@@ -131,6 +133,20 @@ def run_case(case, ctx):
              (("x", X), ("y", Y), ("d0", d0), ("d1", d1))]
     cfgs = [Cfg.from_json(c) for c in case["cfgs"]]
     roots = [os.path.join(work, f"store{i}") for i in range(2)]
+    cwd0 = os.getcwd()
+    if case.get("relative_root"):
+        os.chdir(work)
+        roots = [f"rel store {i}" for i in range(2)]
+        ctx.classify("relative-store-path")
+    try:
+        _run_scripts(case, ctx, cfgs, roots, ids, fmts, files)
+    finally:
+        os.chdir(cwd0)
+    roots = [os.path.join(work, r) for r in roots]
+    _judge_trees(case, ctx, cfgs, roots, ids, fmts, X, Y, d0, d1)
+
+
+def _run_scripts(case, ctx, cfgs, roots, ids, fmts, files):
     for i in case["order"]:
         cfg, root = cfgs[i], roots[i]
         o = call(common.make_store, root, cfg)
@@ -145,6 +161,9 @@ def run_case(case, ctx):
         if bad:
             ctx.violation("script-call-failed", f"cfg {cfg.to_json()} ids={[repr(s)[:40] for s in ids]}: {bad[:2]}",
                           {"err": bad[0][1]})
+
+
+def _judge_trees(case, ctx, cfgs, roots, ids, fmts, X, Y, d0, d1):
     for i in (0, 1):
         cfg, root = cfgs[i], roots[i]
         exp = _expected(cfg, ids, fmts, X, Y, d0, d1)
